@@ -11,7 +11,7 @@ CONSTANTS
   PowOn = FALSE
   Families = {"frame"}
   RateCmds = {}
-  MaxHist = 5
+  MaxHist = 99
   CheckLemma = FALSE
   DevStopUnchecked = FALSE
   DevFetchOutUnchecked = FALSE
